@@ -160,6 +160,36 @@ pub fn drive_c14(out: &mut dyn std::io::Write, seed: u64, thorough: bool) {
             }
         }
     }
+    // every sequence of three (thorough: four) operations from {refill, refill4, set counter, set stream id}, then a probe
+    // (refill4, both parameters, refill): whatever an operation leaves behind - a cached row, a precomputed counter - must
+    // not survive the next change of either parameter
+    {
+        let len = if thorough { 4u32 } else { 3 };
+        for code in 0..4usize.pow(len) {
+            let key = rng.bytes(32);
+            let nonce = rng.bytes(if code % 2 == 0 { 8 } else { 12 });
+            if let Some(mut g) = G::new(out, &key, &nonce, "seq") {
+                let mut c = code;
+                for step in 0..len {
+                    let dr = 1 + ((code as u32 + step) % 10);
+                    match c % 4 {
+                        0 => g.refill(out, dr),
+                        1 => g.refill4(out, dr),
+                        2 => {
+                            let v = [rng.next(), 0xffff_fffd, (1u64 << 32) - 1, rng.next() >> 40][(code / 7 + step as usize) % 4];
+                            g.setp(out, 0, v)
+                        }
+                        _ => g.setp(out, 1, rng.next()),
+                    }
+                    c /= 4;
+                }
+                g.refill4(out, 3);
+                g.getp(out, 0);
+                g.getp(out, 1);
+                g.refill(out, 5);
+            }
+        }
+    }
     // all-ones / all-zero keys, stream id words at their extremes (a carry must never reach them)
     for (key, sid) in [(vec![0xffu8; 32], u64::MAX), (vec![0u8; 32], 0), (vec![0xffu8; 32], 0xffff_ffff)] {
         if let Some(mut g) = G::new(out, &key, &[0u8; 8], "extreme") {
